@@ -218,7 +218,7 @@ Proof.
     apply in_cells_iff in Hin. destruct Hin as [P Ec]. unfold elev in Ez. cbn [mk_block bcen vol_ok] in Ez. rewrite Ec in Ez.
     pose proof (lcen_lt_top g W (nz g) ltac:(lia)) as LT.
     destruct (cc c) as [|[|k] i j] eqn:ECC; cbn [cellof ccen rock_cell fst snd] in Ez; [discriminate| |].
-    + inversion Ez; subst z. pose proof (top_le_bot g W 0 (nz g) ltac:(lia) ltac:(lia)) as T. rewrite bot0 in T. qc_lra.
+    + inversion Ez; subst z. pose proof (top_le_bot g W 0 (nz g) ltac:(lia) ltac:(lia)) as T. rewrite bot0 in T. pose proof (wf_atmz g W) as AZ. qc_lra.
     + inversion Ez; subst z. cbn [present] in P. destruct P as [Hk [Hi [Hj Hh]]].
       assert (S k <> nz g) by (intro X; apply (Hne i j); rewrite X; reflexivity).
       pose proof (zc_gt_bot g W (S k) i j Hk Hh) as Z. pose proof (top_le_bot g W (S k) (nz g) ltac:(lia) ltac:(lia)) as T. qc_lra.
